@@ -554,7 +554,12 @@ func (k *Checker) checkReadProducer(n *Node, pre, post *raft.VerifState, ctx *ca
 			return ok && s > recv
 		}
 		if !jointMaj(lead.Voters, lead.VotersOutgoing, heard) {
-			k.report("C11", "ri.producer", n, fmt.Sprintf("read %q answered without hearing from a quorum after receiving it at step %d (heartbeat responses at %v; voters %v, outgoing %v)", key, recv, x.hbResp, lead.Voters, lead.VotersOutgoing), "ri.producer.quorum")
+			msg := fmt.Sprintf("read %q answered without hearing from a quorum after receiving it at step %d (heartbeat responses at %v; voters %v, outgoing %v)", key, recv, x.hbResp, lead.Voters, lead.VotersOutgoing)
+			if len(lead.VotersOutgoing) > 0 {
+				k.report2("C11", "ri.producer", "C10", "mc.joint_quorums", n, msg, "ri.producer.quorum")
+			} else {
+				k.report("C11", "ri.producer", n, msg, "ri.producer.quorum")
+			}
 			return
 		}
 	}
